@@ -19,6 +19,7 @@ ByNameVerdict(e) ==
   IF e.byindexok[MatOf(e.n, e.c + 1)] = 0 THEN "ByIndexTotal"
   ELSE IF e.bynameok = 0 THEN "ByNameTotal"
   ELSE IF e.byname # e.byindex[MatOf(e.n, e.c + 1)] THEN "ByNameSelectsSameData"
+  ELSE IF e.bynamemeta # e.byindexmeta[MatOf(e.n, e.c + 1)] THEN "ByNameSamePlacement"
   ELSE "ok"
 
 Verdict(e) == CASE e.op = "tables" -> FirstFailing(AxesClauses(e))
